@@ -991,6 +991,25 @@ def _run(ctx):
             ctx.count("search-only:" + d["kind"])
             if v:
                 extra_bad.append((dict(desc=d, i=i, w=w), v))
+    # every width at which a DFT bin lands exactly on an outer vertex of a triangular / Fbank filter whose vertices are
+    # round numbers of Hz (the bin's frequency is then the vertex itself: value 0, never below it, never non-finite)
+    hi_w = ctx.scale(1200, 4096)
+    for d in (dict(kind="fbank", rate=8000, num_filts=5, scale="mel", low_hz=100.0, high_hz=3000.0, analytic=False),
+              dict(kind="fbank", rate=16000, num_filts=4, scale="mel", low_hz=20.0, high_hz=6000.0, analytic=True),
+              dict(kind="tri", rate=16000, num_filts=4, scale="linear", scale_arg=[0.0, 1.0], low_hz=250.0, high_hz=5250.0, analytic=False),
+              dict(kind="tri", rate=44100, num_filts=3, scale="mel", low_hz=300.0, high_hz=4410.0, analytic=False)):
+        bank = build(mods, d, np)
+        if bank is None:
+            continue
+        for i in sorted({0, bank.num_filts - 1}):
+            lo, hi = bank.supports_hz[i]
+            for w in range(2, hi_w + 1):
+                if not any(f > 0 and near_int(w * f / bank.sampling_rate) for f in (lo, hi)):
+                    continue
+                v = oracle(np, eps, bank, d["kind"], i, w)
+                ctx.count("search-only:bin-on-vertex:" + d["kind"])
+                if v:
+                    extra_bad.append((dict(desc=d, i=i, w=w), v))
     for c, v in extra_bad[:5]:
         ctx.fail("property violated on the implementation: %s" % (v,), dict(input=pub(c), violated=v), kind="impl")
     # ---------------- the same clauses with the package setting EFFECTIVE_SUPPORT_THRESHOLD re-assigned at run time
